@@ -12,7 +12,9 @@ what `urllib.parse.quote` works on and what goes into every hash):
   *generated* value in `Replicat.Gen` (extracted from the source on every run by tools/sections/16_s3.py).
 * **transport** — what httpx does with the URL and headers after signing (`httpxPath`: RFC 3986 dot-segment
   removal as in `httpx._urlparse.normalize_path`; `httpxHost`: lower-casing and default-port removal of the
-  `Host` header).  Library behaviour: modelled, validated by the differential runs, not verified.
+  `Host` header httpx DERIVES from the URL; `wireHost`: an explicit `Host` header among the request's headers is
+  kept verbatim — whether the adapter sets one, and to what, is generated: `hostHeaderExplicit`).  Library
+  behaviour: modelled, validated by the differential runs, not verified.
 * **reference** — the published algorithm evaluated on the wire (what a strict S3 endpoint does):
   percent-decode the request target, `awsUriEncode`, sort by encoded name, canonical headers from the headers
   received, same string-to-sign / key chain.
@@ -282,6 +284,21 @@ def httpxHost (scheme host : Bytes) : Bytes :=
 /-- host spellings httpx sends unchanged -/
 def hostIsNormal (scheme host : Bytes) : Bool := httpxHost scheme host == host
 
+def hHost : Bytes := [104, 111, 115, 116]
+
+/-- does `_prepare_request` put a `Host` header on the request ITSELF, with the configured host (`self.host`, the value that is
+signed) as its value?  Generated: an entry named `host` with source 0 in `Gen.s3SentHeaders` (tools/sections/16_s3.py emits the
+name in lower case; a `Host` header set to anything else than the configured host is not recognised and makes the item opaque). -/
+def hostHeaderExplicit : Bool :=
+  match Gen.s3SentHeaders.find? (fun h => h.1 == hHost) with
+  | some (_, 0) => true
+  | _ => false
+
+/-- the `Host` header on the wire: an explicit one is kept verbatim by httpx (`Request.__init__` adds its own only when none is
+among the headers), otherwise httpx derives it from the URL -/
+def wireHost (explicit : Bool) (scheme host : Bytes) : Bytes :=
+  if explicit then host else httpxHost scheme host
+
 /-! ## what is on the wire -/
 
 structure Wire where
@@ -295,6 +312,7 @@ structure Wire where
 
 def sentHeaderValue (c : Crypto) (i : Inputs) (name : Bytes) : Bytes :=
   match Gen.s3SentHeaders.find? (fun h => h.1 == name) with
+  | some (_, 0) => i.host
   | some (_, 1) => i.payloadDigest
   | some (_, 2) => i.amzDate
   | some (_, 3) => clientAuthorization c i
@@ -303,17 +321,19 @@ def sentHeaderValue (c : Crypto) (i : Inputs) (name : Bytes) : Bytes :=
 def hContentSha : Bytes := [120, 45, 97, 109, 122, 45, 99, 111, 110, 116, 101, 110, 116, 45, 115, 104, 97, 50, 53, 54]
 def hAmzDate : Bytes := [120, 45, 97, 109, 122, 45, 100, 97, 116, 101]
 def hAuthorization : Bytes := [97, 117, 116, 104, 111, 114, 105, 122, 97, 116, 105, 111, 110]
-def hHost : Bytes := [104, 111, 115, 116]
 
-/-- the request httpx emits for the client's inputs -/
-def toWire (c : Crypto) (i : Inputs) : Wire where
+/-- the request httpx emits for the client's inputs, for a client that does (`explicit`) / does not set the `Host` header itself -/
+def toWireWith (explicit : Bool) (c : Crypto) (i : Inputs) : Wire where
   method := i.method
   path := httpxPath (clientPath i.path)
   query := clientQueryPairs i.query
-  host := httpxHost i.scheme i.host
+  host := wireHost explicit i.scheme i.host
   contentSha := sentHeaderValue c i hContentSha
   amzDate := sentHeaderValue c i hAmzDate
   authorization := sentHeaderValue c i hAuthorization
+
+/-- … with what the code does today (generated) -/
+def toWire (c : Crypto) (i : Inputs) : Wire := toWireWith hostHeaderExplicit c i
 
 /-- raw request target -/
 def Wire.target (w : Wire) : Bytes :=
